@@ -90,10 +90,10 @@ package datastore
 // the paths of the former and of the new content of every intent are collected in one path set; the other intents'
 // entries for these paths are loaded once, after all intents of the transaction are in the tree, leaving out every intent
 // of the transaction (their stored versions are the former content, which is loaded separately and marked for removal)
-//@   loop 0 invariant paths_of_former_and_new_content_are_collected [C01 C02]: called(Join, 0) ==> called(Join, 1) &&
+//@   loop 0 invariant paths_of_former_and_new_content_are_collected [C01 C02 C09]: called(Join, 0) ==> called(Join, 1) &&
 //@            callarg(Join, 0, 0) == callres(NewPathSet, 0) && callarg(Join, 0, 1) == callres(ToPathSet, 0) && callarg(ToPathSet, 0, 0) == callres(LoadIntendedStoreOwnerData, 0, 0) &&
 //@            callarg(Join, 1, 0) == callres(NewPathSet, 0) && callarg(Join, 1, 1) == callres(ToPathSet, 1)
-//@   internal alternatives_loaded_once_without_the_transactions_intents [C01 C02]: called(loadIntendedStoreHighestPrio) ==>
+//@   internal alternatives_loaded_once_without_the_transactions_intents [C01 C02 C09]: called(loadIntendedStoreHighestPrio) ==>
 //@            callarg(loadIntendedStoreHighestPrio, 0, 3) == callres(NewPathSet, 0) && callarg(loadIntendedStoreHighestPrio, 0, 2) == callres(NewTreeRoot, 0, 0) &&
 //@            callarg(loadIntendedStoreHighestPrio, 0, 4) == callres(GetIntentNames, 0) && callarg(GetIntentNames, 0, 0) == transaction
 //@   loop 1 invariant ntrace() == n0 && inv_Transaction(transaction) && vrOK(validationResult)
